@@ -81,6 +81,7 @@ type tspec struct {
 	rules []nrule  // AddRule calls on the type object itself
 	kids  []*tspec // AddType(kid.name, kid object) calls on the type object
 	depth int      // longest ownership chain below it
+	value string   // scalar leaves: a literal that belongs to the type ("" otherwise)
 	anon  bool     // its own text has or rule-sets / or shortcuts: it owns anonymous types
 	allOf bool
 }
@@ -246,8 +247,11 @@ func (g *textGen) refField(k *tspec, others []string) field {
 			}
 			return field{k.name + ": 1", ""}
 		case 9:
-			ex := map[int]string{shObject: `{}`, shString: `"abc"`, shScalar: `1`, shArray: `[]`, shAlias: `1`}[k.shape]
-			return field{g.key("c") + ": " + ex, fmt.Sprintf("{type: %q}", k.name)}
+			// a type rule needs a literal of the type as its example (and admits no object / array literal)
+			if k.value == "" {
+				continue
+			}
+			return field{g.key("c") + ": " + k.value, fmt.Sprintf("{type: %q}", k.name)}
 		default:
 			return field{g.key("c") + ": " + k.name, ""}
 		}
@@ -260,36 +264,38 @@ type forestGen struct {
 	r     *rand.Rand
 	f     *forest
 	allOf bool // stream "known": owners may extend an owned object type by allOf
+
+	foreign bool // the forest's one reference to a type its owner does not own is spent
 }
 
-func (fg *forestGen) leafText(g *textGen) (text string, shape int) {
+func (fg *forestGen) leafText(g *textGen) (text string, shape int, value string) {
 	r := fg.r
 	switch x := r.Intn(12); {
 	case x < 2:
-		return `"abc" // {regex: "[a-z]+"}`, shString
+		return `"abc" // {regex: "[a-z]+"}`, shString, `"abc"`
 	case x < 3:
-		return `"ab" // {minLength: 1}`, shString
+		return `"ab" // {minLength: 1}`, shString, `"ab"`
 	case x < 5:
 		rule, ex := orRule(r)
 		g.anon = true
-		return ex + " // " + rule, shScalar
+		return ex + " // " + rule, shScalar, ex
 	case x < 6:
 		e := nestedEnums[r.Intn(len(nestedEnums))]
 		name := fmt.Sprintf("@e%s", g.tag)
 		g.rules = append(g.rules, nrule{name, e.text})
-		return e.example + " // {enum: " + name + "}", shScalar
+		return e.example + " // {enum: " + name + "}", shScalar, e.example
 	case x < 7:
-		return `1 // {min: 0}`, shScalar
+		return `1 // {min: 0}`, shScalar, `1`
 	case x < 8:
 		rule, ex := orRule(r)
 		g.anon = true
-		return joinFields("[", "]", []field{{ex, rule}}, "", ""), shArray
+		return joinFields("[", "]", []field{{ex, rule}}, "", ""), shArray, ""
 	default:
 		var fs []field
 		for i, n := 0, 1+r.Intn(3); i < n; i++ {
 			fs = append(fs, g.ownField(""))
 		}
-		return joinFields("{", "}", fs, "", ""), shObject
+		return joinFields("{", "}", fs, "", ""), shObject, ""
 	}
 }
 
@@ -334,7 +340,7 @@ func (fg *forestGen) node(level, depth int) *tspec {
 	t.name = fmt.Sprintf("@%c%d", "TUVWX"[level], t.id)
 	g := &textGen{r: r, tag: fmt.Sprintf("%c%d_", "tuvwx"[level], t.id)}
 	if len(kids) == 0 {
-		t.text, t.shape = fg.leafText(g)
+		t.text, t.shape, t.value = fg.leafText(g)
 	} else {
 		var names []string
 		for _, k := range kids {
@@ -376,7 +382,11 @@ func (fg *forestGen) node(level, depth int) *tspec {
 			if r.Intn(7) == 0 { // recursion through the type itself
 				fs = append(fs, field{g.key("self") + ": " + t.name, "{optional: true}"})
 			}
-			if r.Intn(14) == 0 && len(fg.f.nodes) > 0 { // a type it does not own: resolved only in roots that got it from elsewhere
+			// a type it does not own: resolved only in roots that got it from elsewhere.  At most one per forest: a
+			// root with two unrelated errors reports either of them (which one depends on the addresses behind
+			// the names of anonymous types) — that choice is no business of C12
+			if r.Intn(5) == 0 && len(fg.f.nodes) > 0 && !fg.foreign {
+				fg.foreign = true
 				o := fg.f.nodes[r.Intn(len(fg.f.nodes))]
 				fs = append(fs, field{g.key("x") + ": " + o.name, "{optional: true}"})
 			}
@@ -749,24 +759,28 @@ func nestedOracle(rt *nroot, r *rand.Rand) target {
 // sequential) and with the calls in the opposite order.  A root for which it
 // disagrees with the first run depends on call history or on sequential
 // sharing — not C12's business (C11) — and is left out of the round.
-func sequentialAgain(roots []*nroot, targets []target) (agree []bool) {
+func sequentialAgain(roots []*nroot, targets []target) (disagree []string) {
 	seq := instance{}
-	agree = make([]bool, len(roots))
+	disagree = make([]string, len(roots)) // "" = the runs agree
 	for i, rt := range roots {
 		t := targets[i]
+		note := func(what, got, want string) {
+			if got != want && disagree[i] == "" {
+				disagree[i] = fmt.Sprintf("%s: first run (fresh objects) %s, second run (roots one after another over one copy of the objects, calls in opposite order) %s", what, want, got)
+			}
+		}
 		s2, setupRes := setupRoot(rt, seq, nil)
-		ok := strings.Join(setupRes, ",") == strings.Join(t.w.setup, ",")
+		note("set-up", strings.Join(setupRes, ","), strings.Join(t.w.setup, ","))
 		for d := len(t.docs) - 1; d >= 0; d-- {
 			res, _, _ := observe(s2, opValidate, t.docs[d])
-			ok = ok && res == t.w.ops[opKey(opValidate, d)]
+			note(opKey(opValidate, d)+docText(opValidate, t.docs[d], d), res, t.w.ops[opKey(opValidate, d)])
 		}
 		for _, code := range []int{opUsed, opAST, opExample, opLen, opCheck} {
 			res, _, _ := observe(s2, code, "")
-			ok = ok && res == t.w.ops[opKey(code, 0)]
+			note(opKey(code, 0), res, t.w.ops[opKey(code, 0)])
 		}
-		agree[i] = ok
 	}
-	return agree
+	return disagree
 }
 
 // ---------------------------------------------------------------- a round
@@ -839,12 +853,12 @@ func prepareNestedRound(col *collector, round int, known bool) *prepared {
 		p.targets[i] = nestedOracle(rt, r)
 		p.targets[i].setup = p.scenario + " ||| this root: " + rt.id
 	}
-	for i, ok := range sequentialAgain(roots, p.targets) {
-		if !ok {
+	for i, why := range sequentialAgain(roots, p.targets) {
+		if why != "" {
 			col.stat("nested_root_sequential_runs_disagree_left_out")
 			col.mu.Lock()
 			if _, have := col.res.Extra["nested_left_out_example"]; !have {
-				col.res.Extra["nested_left_out_example"] = where + "; " + p.targets[i].setup
+				col.res.Extra["nested_left_out_example"] = why + " <<< " + where + "; " + p.targets[i].setup
 			}
 			col.mu.Unlock()
 			continue
